@@ -22,6 +22,16 @@ from . import common
 LEVEL = 'model_checking'
 
 
+def c_lost(proto):
+    '''the harness's own knowledge of whether this protocol's connection dropped'''
+    from dawgie.db.shelve import comms
+    w = comms.Worker._verif_world[0]
+    for c in w.all:
+        if c['p'] is proto:
+            return c['lost']
+    return False
+
+
 class LockWorld:
     # the free-text label a client sends with its acquire request
     NAMES = {
@@ -58,7 +68,7 @@ class LockWorld:
             w = comms.Worker._verif_world[0]
             before = slf._Worker__has_lock
             free = not __import__('dawgie.context').context.db_lock
-            live = not (slf._Worker__looping_call_stopped or slf._Worker__connection_lost)
+            live = not (slf._Worker__looping_call_stopped or getattr(slf, '_Worker__connection_lost', c_lost(slf)))
             out = orig(slf)
             w.polls.append((id(slf), live, free, (not before) and slf._Worker__has_lock))
             return out
@@ -195,7 +205,7 @@ class LockWorld:
             if dead:
                 continue  # a finished connection has no future
             conns.append((c['slot'], sum(1 for x in self.all if x['slot'] == c['slot']), c['lost'], c['told'], c['released'], p._Worker__has_lock,
-                          p._Worker__looping_call_stopped, p._Worker__connection_lost, lc.running,
+                          p._Worker__looping_call_stopped, getattr(p, '_Worker__connection_lost', c['lost']), lc.running,
                           c['t'].disconnecting, tuple(timers), self.conns[c['slot']] is c))
         used = tuple(sum(1 for x in self.all if x['slot'] == i) for i in range(self.n))
         return (bool(dawgie.context.db_lock), used, tuple(sorted(conns)), self.nreopen)
